@@ -96,7 +96,7 @@ fn extra_engines(prop: &str, tier: Tier, seed: u64, planned: u64, first: &std::c
     let plan: Vec<(&str, u64, u32, &[&str], bool)> = match (prop, tier) {
         // (mode, scenarios, interpreter seeds per scenario, pre-emption rates, also without the prefetch feature)
         ("C18", Tier::Quick) => vec![("c18", 2, 8, &["0.1"], false)],
-        ("C18", Tier::Thorough) => vec![("c18", 8, 32, &["0.01", "0.1", "0.5"], false)],
+        ("C18", Tier::Thorough) => vec![("c18", 6, 24, &["0.01", "0.1", "0.5"], false)],
         ("C02", Tier::Thorough) => vec![("c02", 4, 32, &["0.01"], false)],
         ("C03", Tier::Thorough) => vec![("c03", 4, 32, &["0.01"], false)],
         ("C09", Tier::Thorough) => vec![("c09", 4, 8, &["0.01"], true)],
